@@ -213,6 +213,14 @@ theorem foreign_exception_escapes {σ : Type} (build : List (String × J) → Ex
     schemaFromUrl build (.raised e) = .escaped e := by
   rw [raised_outcome]; simp [h0, h1]
 
+/-- Whatever `httpx.post` raises - listed failure or not, typed or escaping - no schema comes back. -/
+theorem raised_never_yields_schema {σ : Type} (build : List (String × J) → Except String σ) (e : Exc) (s : σ) :
+    schemaFromUrl build (.raised e) ≠ .schema s := by
+  rw [raised_outcome]
+  by_cases h1 : e.isa clsInvalidURL = true
+  · simp [h1]
+  · by_cases h2 : e.isa clsTransportError = true <;> simp [h1, h2]
+
 /-- **introspection_failures_typed** - outside the two trigger regions every listed failure is an
     `IntrospectionError`. -/
 theorem introspection_failures_typed {σ : Type} (build : List (String × J) → Except String σ) (p : PostResult)
